@@ -11,6 +11,14 @@ def _eq_attrs(x, y, attrs):
     return True
 
 
+def _number(x):
+    """
+    a numpy number as the python number it holds. 
+    np.float64(2**53) == 2**53 + 1 since numpy rounds the int to a float, while python compares an int and a float exactly; np.float32('nan') is not a float
+    """
+    return x.item() if isinstance(x, np.number) and not isinstance(x, np.timedelta64) else x
+
+
 def eq(x, y):
     """
     A better nan-handling equality comparison. Here is the problem:
@@ -66,6 +74,7 @@ def eq(x, y):
     >>> assert not eq(pd.DataFrame([1,np.nan], columns = ['a']), pd.DataFrame([1,np.nan], columns = ['b']))
     
     """
+    x, y = _number(x), _number(y)
     if x is y:
         return True
     elif isinstance(x, (tuple, list)):
